@@ -373,7 +373,9 @@ Definition shape_burndown (r : burndown_result) : bool :=
              (bd_ownership r)                          (* ownership tables belong to files with a history *)
   && (length (bd_people r) <=? length (bd_names r))%nat.
 
-(* the two side conditions under which nothing but clamping happens *)
+(* the two side conditions under which nothing but clamping happens.  BurndownAnalysis.Finalize
+   establishes the first one (since 909b314 a table is made for every file history); the second one
+   fails when the people dictionary was loaded from a file (PeopleNumber = len(dict) - 1): known finding C17-K1 *)
 Definition aligned_burndown (r : burndown_result) : bool :=
   names_eqb (map fst (bd_files r)) (map fst (bd_ownership r))
   && (length (bd_names r) =? length (bd_people r))%nat.
